@@ -12,6 +12,7 @@ pub mod c14;
 pub mod c16;
 pub mod c17;
 pub mod c19;
+pub mod c20;
 
 pub fn run(ctx: &Ctx) -> bool {
     match ctx.id.as_str() {
@@ -27,6 +28,7 @@ pub fn run(ctx: &Ctx) -> bool {
         "C16" => c16::run(ctx),
         "C17" => c17::run(ctx),
         "C19" => c19::run(ctx),
+        "C20" => c20::run(ctx),
         _ => return false,
     }
     true
@@ -47,6 +49,7 @@ fn replay_one(ctx: &Ctx, sub: &str, input: &serde_json::Value) -> Option<Result<
         "C16" => c16::replay(ctx, sub, input),
         "C17" => c17::replay(ctx, sub, input),
         "C19" => c19::replay(ctx, input),
+        "C20" => c20::replay(ctx, sub, input),
         _ => return None,
     })
 }
